@@ -206,12 +206,16 @@ def guard_cases():
 
 
 def seq_cases(keys):
-    """(denied request, allowed request) pairs over all route variants."""
+    """(denied request, allowed request) pairs: every request variant as
+    the denied one x every variant on an existing resource (or creating a
+    new one) as the allowed one."""
     R = fixtures()['routes']
     vs = [(key, i) for key in sorted(R) if key in keys
           for i in range(len(R[key]))]
     for dk, di in vs:
         for ak, ai in vs:
+            if not R[ak][ai]['present']:
+                continue
             yield {'kind': 'seq', 'dkey': list(dk), 'dvi': di,
                    'akey': list(ak), 'avi': ai}
 
@@ -591,7 +595,7 @@ def main(tier):
         return [[lst[i] for i in order[j::n]] for j in range(n)]
 
     chunks = mk_chunks(core, 40) + mk_chunks(seq, 80)
-    deadline = time.time() + (150 if tier == 'quick' else 1500)
+    deadline = time.time() + (150 if tier == 'quick' else 780)
     res = common.parallel_map(_chunk_job, chunks, deadline=deadline)
     results = {}
     errors = []
@@ -642,7 +646,7 @@ def main(tier):
             notes.append('%s: %s' % (cid, r['note']))
         for typ, msg in r['viol']:
             viols.append((cid, typ, msg, c))
-    if notes:
+    if notes and not viols:
         # an allowed request on a present resource that does not succeed
         # means the request templates are stale: the check would be vacuous
         raise A.HarnessError('request templates out of date (%d):\n%s'
@@ -673,7 +677,7 @@ def main(tier):
 
     # ---- determinism audit: re-execute a slice from scratch in this process
     ids = sorted(results)
-    step = max(1, len(ids) // (40 if tier == 'quick' else 200))
+    step = max(1, len(ids) // (150 if tier == 'quick' else 400))
     for cid in ids[::step]:
         c, r = results[cid]
         r2 = run_case(c)
@@ -704,6 +708,7 @@ def main(tier):
         'static_enforce_vs_reference_mismatches': static_mismatch,
         'policy_registry_vs_documented_default_mismatches': reg_mismatch,
         'undocumented_requests_answered_2xx_without_effect': accepted_noop,
+        'allowed_requests_with_unexpected_status': notes[:20],
         'rules_documented_without_route': sorted(
             n for n in docs if n not in ref.RULES and
             n not in ref.BASE_RULES),
@@ -740,7 +745,10 @@ def main(tier):
              '); guards: current state x requested '
              'state x fields; a case is one REST request from the fixture '
              'state, distinct by (operation, variant, caller, policy) or '
-             '(guard, current state, requested state, fields); states = '
+             '(guard, current state, requested state, fields); non-trivial '
+             '= the reference expects a refusal, or the request changed the '
+             'database, or it succeeded (trivial: allowed request failing '
+             'for an unrelated reason such as 404); states = '
              'distinct canonical DB images + pending messages after the '
              'request',
         exhaustive=bool(complete and not vanished))
